@@ -115,6 +115,11 @@ impl EffectBackend for SimBackend {
                     st.fired("open_error");
                     (op, Err(Error::InvalidArgument("Failed to open file: injected".to_string())))
                 } else {
+                    // a virtual file just over the runtime's 16 MiB binary limit: a read may legally return
+                    // more than a process can hold
+                    if path == "/huge" && !st.files.contains_key(&path) {
+                        st.files.insert(path.clone(), vec![0u8; 16 * 1024 * 1024 + 4096]);
+                    }
                     let create = flags & 0o100 != 0;
                     let trunc = flags & 0o1000 != 0;
                     let append = flags & 0o2000 != 0;
